@@ -370,6 +370,9 @@ pub fn run_random(rec: &mut Rec, seed: u64, run: u64, nops: usize) {
     // properties): a flow that starts in an epoch one staker has already claimed, and a flow stretched in its last epoch
     let start_witness = run % 16 == 2;
     let stretch_witness = run % 16 == 10;
+    // a flow longer than the 180-epoch expansion limit, claimed from and only then expanded for the first time (the
+    // expansion re-bases it), then closed - in the staked LP asset itself on every other such run
+    let long_campaign = run % 16 == 6;
     let camp_asset = *gen::pick(&mut r, &["uusdc", "rwd2", "lp"]);
     let camp_dur = DURS[0];
     for step in 0..nops {
@@ -402,6 +405,26 @@ pub fn run_random(rec: &mut Rec, seed: u64, run: u64, nops: usize) {
                     6 => p.step(rec, run, step, "claim", 0, json!({})),
                     _ => p.step(rec, run, step, "newepoch", 0, json!({})),
                 }
+            }
+            continue;
+        }
+        if long_campaign && step < 13 {
+            let fee: u128 = 1000;
+            let fa = p.fee_asset.clone();
+            let asset = if run % 32 == 6 { "lp" } else { camp_asset };
+            let flow_funds = |asset: &str, a: u128| -> Value { if asset == fa { json!([{"d": asset, "amt": s(a)}]) } else { json!([{"d": fa, "amt": s(fee)}, {"d": asset, "amt": s(a)}]) } };
+            let a = 100_000u128 + r.gen_range(0..50_000u128);
+            let id = p.flows().iter().map(|f| f.flow_id).max().unwrap_or(0);
+            match step {
+                0 | 1 => { let x = 1000 + r.gen_range(0..1000u128); p.step(rec, run, step, "open", step, json!({"amt": s(x), "allow": s(x), "dur": camp_dur.to_string(), "recv": USERS[step]})) }
+                2 => p.step(rec, run, step, "openflow", 2, json!({"asset": asset, "amt": s(a), "funds": flow_funds(asset, a), "len": 185 + r.gen_range(0..20u64), "start": 0})),
+                3 | 6 => p.step(rec, run, step, "newepoch", 0, json!({})),
+                4 | 7 => p.step(rec, run, step, "snapshot", 2, json!({})),
+                5 | 8 => p.step(rec, run, step, "claim", 0, json!({})),
+                9 => p.step(rec, run, step, "claim", 1, json!({})),
+                10 => p.step(rec, run, step, "expandflow", 1, json!({"asset": asset, "amt": "2500", "id": id, "ext": 0, "funds": [{"d": asset, "amt": "2500"}]})),
+                11 => p.step(rec, run, step, "claim", 1, json!({})),
+                _ => p.step(rec, run, step, "closeflow", 2, json!({"id": id, "by": "creator"})),
             }
             continue;
         }
